@@ -20,6 +20,15 @@ def worker():
     out = []
     builtin = list(grid_object_registry)
     index0 = {k: k.type_index() for k in builtin}
+    # the library has been in use before the user's classes exist: names were looked up, a shipped
+    # configuration was built (whatever the registry remembers from that must not hide later classes)
+    try:
+        grid_object_registry.from_name('Floor')
+        from harness.oracles import build_env, shipped_files
+
+        build_env([x for x in shipped_files() if 'empty' in x][0])
+    except Exception as e:
+        out.append({'signature': 'factory/shipped-config-rejected', 'what': f'{type(e).__name__}: {e}'})
 
     def user_class(name):
         body = {
@@ -86,6 +95,18 @@ def worker():
             out.append({'signature': 'factory/reset-state-outside-the-declared-space', 'what': os.path.basename(f)})
     except Exception as e:
         out.append({'signature': 'factory/shipped-config-fails-with-user-classes', 'what': f'{type(e).__name__}: {e}'})
+    # 5. the shipped example with its own object class (imported by the factory, i.e. registered only now),
+    # built after all of the above
+    try:
+        from harness import gvenv as _g
+
+        env = build_env(os.path.join(_g.REPO, 'examples', 'coin_env.yaml'))
+        env.set_seed(1)
+        env.reset()
+        for a in list(env.action_space.actions)[:3]:
+            env.step(a)
+    except Exception as e:
+        out.append({'signature': 'factory/shipped-config-rejected', 'what': f'examples/coin_env.yaml built after other configurations: {type(e).__name__}: {e}'})
     print(json.dumps(out))
 
 
